@@ -504,6 +504,123 @@ def check_C05(tier):
     return res.finish('./vcheck C05 --tier ' + tier)
 
 
+def c13_compare(c, codes, has_errcb, r, mi, mf, data, default_err='Default'):
+    """Full comparison for callback definitions: items incl. chosen variant and error value, callback log."""
+    if r['panic'] is not None:
+        return 'panic: %s' % r['panic']
+    if mf[0] != 'fin':
+        return 'model outcome %r' % (mf,)
+    ri = r['items']
+    if len(ri) != len(mi):
+        return 'item count real %d model %d' % (len(ri), len(mi))
+    for k, (a, b) in enumerate(zip(ri, mi)):
+        if (a[0], a[2], a[3]) != (b[0], b[2], b[3]):
+            return 'item %d real %r model %r' % (k, a, tuple(b))
+        code = codes[b[1]] if b[1] is not None else 0
+        if a[0]:
+            exp = 'Alt' if (code in (19, 20, 21, 22) and b.k >= 2) else engine.leaf_variant(c, b[1])
+            if a[1] != exp:
+                return 'item %d variant real %s expected %s' % (k, a[1], exp)
+        else:
+            if b.custom:
+                exp = 'Custom(%d)' % b.k
+            elif has_errcb:
+                exp = 'FromCb(%d, %d)' % (b[2], b[3])
+            else:
+                exp = default_err
+            if a[1] != exp:
+                return 'item %d error value real %s expected %s' % (k, a[1], exp)
+    if not r['finals'] or r['finals'][0] != (mf[1], mf[2]):
+        return 'final span real %r model %r' % (r['finals'][:1], mf[1:])
+    # callback invocations: one per region whose leaf has a callback, in order, grouped per next() call
+    groups = [[]]
+    for is_skip, rec in mi.regions:
+        code = codes[rec[1]] if rec[1] is not None else 0
+        if code >= 10:
+            groups[-1].append((rec, code))
+        if not is_skip:
+            groups.append([])
+    for j, grp in enumerate(groups):
+        real_cbs = r['cbs'][j] if j < len(r['cbs']) else []
+        if len(real_cbs) != len(grp):
+            return 'next() #%d: %d callback invocations, expected %d' % (j, len(real_cbs), len(grp))
+        for (rs, re_, rhex), (rec, code) in zip(real_cbs, grp):
+            rs, re_ = int(rs), int(re_)
+            sl = b'' if rhex == '-' else bytes.fromhex(rhex)
+            if rs != rec[2] or sl != data[rs:re_]:
+                return 'next() #%d: callback observed span %d..%d slice %r' % (j, rs, re_, sl)
+            if code == 25:
+                want = sum(sl) % 3
+                ok = (re_ + want == rec[3]) or (re_ == rec[3])
+            else:
+                ok = re_ == rec[3]
+            if not ok:
+                return 'next() #%d: callback observed end %d, item end %d' % (j, re_, rec[3])
+    return None
+
+
+def check_C13(tier):
+    res = Result('C13', tier)
+    framework(res, ['C13_construct_matches_table', 'C13_decision_determines_item', 'C13_skip_transparent', 'C13_bump_extends_and_excludes'])
+    fss = ['tc', 'sm']
+    sets = ce.compiled_sets(tier, fss)
+    drv = build.extraction_build()
+    rng = random.Random(seed() + 13)
+    label, h, enums = sets[0]
+    exe0, caps0 = h['tc']
+    targets = [en for en in sorted(caps0) if any(v >= 10 for v in engine.behaviour_codes(caps0[en]) if v is not None)]
+    res.count('callback_definitions', len(targets))
+    kinds_seen = set()
+    words = lambda: ''.join(rng.choice('abcdefghijkxyz') + ''.join(rng.choice('abcz') for _ in range(rng.randint(0, 3))) if rng.random() < 0.75
+                            else (str(rng.randint(0, 999)) if rng.random() < 0.7 else rng.choice(['!', 'Q', 'zz', '\u00e9']))
+                            for _ in range(1))
+    nviol = 0
+    for en in targets:
+        c = caps0[en]
+        codes = engine.behaviour_codes(c)
+        src_nospace = (enums[en][1].source or '').replace(' ', '')
+        has_errcb = 'error(' in src_nospace
+        ps = ce.make_probes(c, rng, tier)
+        for _ in range(150 if tier == 'quick' else 1500):
+            n = rng.randint(1, 7)
+            txt = ''
+            for _ in range(n):
+                txt += words() + (' ' if rng.random() < 0.6 else '')
+            ps.append(txt.encode('utf8'))
+        if c.utf8:
+            ps = [p for p in ps if probes.is_utf8(p)]
+        lines = engine.problem_header(c, with_dfa=False)
+        allp = []
+        for i, p in enumerate(ps):
+            pid = '%s.%d' % (en, i)
+            allp.append((pid, en, 0, p))
+            lines.append('P %s 0 %d %s' % (pid, len(p), ' '.join(map(str, p))))
+        model = engine.parse_model_output(engine.run_modeldrv(drv, [lines]))
+        for fs in fss:
+            real = engine.run_real(h[fs][0], allp)
+            for pid, _, _, p in allp:
+                (mi, mf), _ = model[pid]
+                res.count('callback_probe_runs')
+                for is_skip, rec in mi.regions:
+                    if rec[1] is not None and codes[rec[1]] >= 10:
+                        kinds_seen.add((codes[rec[1]], rec.k, is_skip, rec[0]))
+                d = c13_compare(c, codes, has_errcb, real[pid], mi, mf, p, 'Default' if 'error' in src_nospace else '()')
+                if d:
+                    nviol += 1
+                    if nviol <= 6:
+                        res.violation(None, '%s/%s on %r: %s' % (en, fs, p, d),
+                                      dict(definition=enums[en][1].source, enum=en, featureset=fs, input_hex=p.hex(), input=repr(p), observed=real[pid]['raw'][:600],
+                                           model_regions=[(sk, tuple(rec), rec.custom, rec.k) for sk, rec in mi.regions], model_final=mf))
+    res.oblige(nviol == 0)
+    res.cov['distinct_(returntype,checksum,skipped,ok)_outcomes_exercised'] = len(kinds_seen)
+    res.sample(dict(outcomes=sorted(kinds_seen)[:12]))
+    res.cov['rule'] = ('compiled definitions with one callback per CallbackRetVal / SkipRetVal impl (14 + 4), any-token callbacks, an error callback, a bumping callback, str and byte sources; '
+                       'callbacks decide by a checksum of the slice; compared per next(): result, chosen variant, error value (Default / Custom / from error callback with its span), span, and the log of callback invocations (count, observed span and slice)')
+    res.trusted += ['Coq kernel', 'extraction + driver', 'harness + corpus callbacks (corpus/engine/callbacks_plain.rs) and the behaviour-code table lib/engine.py CB_CODES']
+    res.assumptions += ASSUME_ENGINE + ['callbacks are modelled as an oracle (decision + bump amount) that is a pure function of the match; the documented table is Engine/Run.v `table` / Runtime/Callbacks.v `documented`']
+    return res.finish('./vcheck C13 --tier ' + tier)
+
+
 def setup():
     ok, msg = build.coq_build()
     if not ok:
